@@ -57,7 +57,8 @@ namespace
 
 int main(int argc, char** argv)
 {
-    std::string part = "sib", scen, out, tier = "quick", replay, place = "asc";
+    std::string part = "sib", scen, out, tier = "quick", replay, place = "asc", mode = "all";
+    int         dual = 0;
     int         depth = 0, shard = 0, of = 1, group = 0, groups = 1;
     bool        list = false;
     for (int i = 1; i < argc; ++i)
@@ -82,6 +83,10 @@ int main(int argc, char** argv)
             group = std::atoi(nx().c_str());
         else if (a == "--groups")
             groups = std::atoi(nx().c_str());
+        else if (a == "--mode")
+            mode = nx();
+        else if (a == "--dual")
+            dual = std::atoi(nx().c_str());
         else if (a == "--place")
             place = nx();
         else if (a == "--replay")
@@ -120,14 +125,29 @@ int main(int argc, char** argv)
             {
                 if (comps[c].leaves == 2 && lcs[l].name == "iiP")
                     continue;
+                // move systems (two objects) only with the leaf configurations made for them, selected by --dual 1
+                if (comps[c].dual() != lcs[l].dual() || comps[c].dual() != (dual != 0))
+                    continue;
+                if (comps[c].dual())
+                {
+                    if (place == "asc")
+                    {
+                        if (mode != "try")
+                            csys.push_back({c, l, false});
+                        if (comp && mode != "std")
+                            csys.push_back({c, l, true});
+                    }
+                    continue;
+                }
                 // extended leaf configurations: subset of the compositions; descending / alternating block placement: only
                 // the configurations with real pools that own more than one block
                 if (lcs[l].extended && !comp_in_subset(comps[c].name))
                     continue;
                 if (place != "asc" && !(comp_in_subset(comps[c].name) && (lcs[l].name == "P2ii" || lcs[l].name == "N3P2i" || lcs[l].name == "iiP")))
                     continue;
-                csys.push_back({c, l, false});
-                if (comp)
+                if (mode != "try")
+                    csys.push_back({c, l, false});
+                if (comp && mode != "std")
                     csys.push_back({c, l, true});
             }
         }
@@ -207,7 +227,7 @@ int main(int argc, char** argv)
     else
     {
         if (depth == 0)
-            depth = tier == "quick" ? 5 : 7;
+            depth = dual ? (tier == "quick" ? 4 : 5) : (tier == "quick" ? 5 : 7);
         bool any = false;
         for (std::size_t i = 0; i < csys.size(); ++i)
         {
@@ -219,11 +239,14 @@ int main(int argc, char** argv)
         }
         if (!any)
             herror("no composition selected (" + scen + ")");
-        rule = fmt("part 2: ALL operation sequences of length 1..%d over {allocate node(16), allocate array(1|2|3 x 16), release any live allocation"
+        rule = fmt("part 2%s: ALL operation sequences of length 1..%d over {allocate node(16), allocate array(1|2|3 x 16), release any live allocation"
                    "; composable interface: try_ variants plus try_deallocate of an outsider pointer; next_iteration() when leaf<0> is an iteration_allocator} "
                    "on every composition x leaf configuration x interface, upstream block placement '%s' "
                    "(group %d of %d); leaves leaf<0..2> log every call; a class is (composition, leaf configuration, interface, request, serving leaf, "
                    "number of live allocations) or (.., release shape, serving leaf)",
+                   dual ? " (move systems: two objects x, y of the same composition type with aligned_allocator layers of minimum alignment 16 / 8 over "
+                          "separate leaves; 8-byte requests; additional operations x = std::move(y), y = std::move(x); ownership follows the move)"
+                        : "",
                    depth, place.c_str(), group, groups);
     }
 
